@@ -19,6 +19,55 @@ PRE_LANG = """From Coq Require Import List Bool String ZArith PrimFloat.
 From Cheetah Require Import Parse.Lines Parse.LatticeLang Parse.NxTables.
 Import ListNotations. Open Scope string_scope."""
 
+# Six small defects of the importers (F18 twice, F40..F43) may be repaired in /repo one by one.  The Coq development keeps the
+# transcription of the code as it was (convert_bmad / merge_continued / define_header false; the _refuted theorems are about it) and
+# holds the transcription of the repaired code (convert_bmad_v fx / merge_continued_fixed / define_header true; the _fixed theorems).
+# Which one is the faithful model is decided PER FINDING by its status in known_findings.json (known -> as it was, fixed ->
+# repaired), cross-checked on every run by replaying the stored input of the finding on the current tree (probe_fixes):
+#   known + defect reproduces     -> model as it was, generators stay out of the region, KNOWN-FINDING line
+#   fixed + stored input is fine  -> repaired model, generators EXERCISE the repaired behaviour, stored input = regression test
+#   known + stored input is fine  -> the status is stale: note, repaired model (the check stays quiet)
+#   fixed + defect reproduces     -> VIOLATION with the stored input (a repaired defect is back); model as it was for the rest
+FIX_KEYS = lg.FIX_KEYS
+STATE = {"fx": {k: False for k in FIX_KEYS}}
+
+
+def pre_lang():
+    b = lambda k: "true" if STATE["fx"][k] else "false"
+    return PRE_LANG + ("\nDefinition fx_now : fixes := mk_fixes %s %s %s %s.   (* F18 sbend g, F18 kickers, F42, F43 *)"
+                       "\nDefinition f41_now : bool := %s.\nDefinition f40_now : bool := %s."
+                       % (b("F18a"), b("F18b"), b("F42"), b("F43"), b("F41"), b("F40")))
+
+
+def finding_key(f):
+    """F18 is listed twice (Bmad sbend g / Bmad kickers): the entries are told apart by their text"""
+    if f.get("id") == "F18":
+        blob = (json.dumps(f.get("signature", {})) + " " + f.get("what", "")).lower()
+        return "F18b" if "kicker" in blob else "F18a"
+    return f.get("id")
+
+
+# the stored inputs of the six findings as programs (used as regression cases against the repaired model; compared only while the
+# stored text is this one)
+def _bmad(defn):
+    return {"flavour": "bmad", "root": "lat", "prog": [defn, ["line", "lat", [defn[1]]], ["use", "lat"]]}
+
+
+REGRESSION = {
+    "F18a": dict(_bmad(["def", "b", "sbend", [["l", ["num", "0.5"]], ["g", ["num", "1"]], ["e1", ["num", "0.1"]]]]),
+                 text="b: sbend, l = 0.5, g = 1, e1 = 0.1\nlat: line = (b)\nuse, lat\n"),
+    "F18b": dict(_bmad(["def", "h", "hkicker", [["l", ["num", "0.1"]], ["kick", ["num", "1e-3"]]]]),
+                 text="h: hkicker, l = 0.1, kick = 1e-3\nlat: line = (h)\nuse, lat\n"),
+    "F40": {"flavour": "elegant", "root": "lat", "prog": [["def", "q", "quad", [["l", ["num", "0.1"]], ["k1", ["num", "2"]]]], ["line", "lat", ["q"]]],
+            "text": "q: quad , l = 0.1, k1 = 2\nlat: line = (q)\n"},
+    "F41": {"flavour": "elegant", "root": "lat", "prog": [["line", "lat", ["d", "d"]], ["def", "d", "drift", [["l", ["num", "1"]]]]],
+            "text": "lat: line = (d, d)\nd: drift,\nl = 1,\n"},
+    "F42": dict(_bmad(["def", "e", "ecollimator", [["l", ["num", "0.1"]], ["x_limit", ["num", "1e-3"]]]]),
+                text="e: ecollimator, l = 0.1, x_limit = 1e-3\nlat: line = (e)\nuse, lat\n"),
+    "F43": dict(_bmad(["def", "b", "sbend", [["l", ["num", "0.5"]], ["angle", ["num", "0.2"]]]]),
+                text="b: sbend, l = 0.5, angle = 0.2\nlat: line = (b)\nuse, lat\n"),
+}
+
 
 # ------------------------------------------------------------------------------------------------ observation
 PARAMS = {
@@ -183,8 +232,8 @@ def lines_correspondence(run, n):
         run.add_case(["lines", raw, src, d, rm], len(raw) >= 2)
         run.count("lines_merge_" + ("IndexError" if obs is None else "ok"))
     bad = []
-    for name, terms, chk in (("lclean", clean_terms, "clean_check"), ("lmerge", merge_terms, "merge_check"), ("lfront", front_terms, "front_check")):
-        for i in common.run_shards(PID, name, PRE_LANG, terms, chk):
+    for name, terms, chk in (("lclean", clean_terms, "clean_check"), ("lmerge", merge_terms, "merge_check_v f41_now"), ("lfront", front_terms, "front_check_v f41_now")):
+        for i in common.run_shards(PID, name, pre_lang(), terms, chk):
             bad.append({"kind": "lines_correspondence", "stage": chk, "case": meta[i]})
     run.cov["traces_validated_against_impl"] += 3 * n
     return bad
@@ -196,18 +245,23 @@ STYLES = [{"case": "lower", "cont": 0.0, "comments": 0.0, "blanks": 0.0},
           {"case": "per_stmt", "cont": 0.7, "comments": 0.5, "blanks": 0.1}]
 
 
-def program_correspondence(run, n_good, n_bad):
-    """Generated programs -> text -> real importer -> tree ; compared exactly with vm_compute (denote ast)."""
+def program_correspondence(run, n_good, n_bad, extra=()):
+    """Generated programs -> text -> real importer -> tree ; compared exactly with vm_compute (denote_v fx_now ast).
+    extra: (case, text) pairs imported as they are (stored inputs of repaired findings = regression cases)."""
     cases, terms = [], []
-    for i in range(n_good + n_bad):
+    for i in range(n_good + n_bad + len(extra)):
         flavour = "elegant" if i % 2 == 0 else "bmad"
         if i < n_good:
             case = lg.gen_program(run.rng, flavour, size=run.rng.choice([3, 6, 10]), depth=run.rng.choice([1, 2, 3]), nest=5)
             kind = "wellformed"
-        else:
+        elif i < n_good + n_bad:
             case, kind = lg.gen_malformed(run.rng, flavour)
-        style = run.rng.choice(STYLES)
-        text = lg.render_program(case["prog"], run.rng, style)
+        else:
+            case, text = extra[i - n_good - n_bad]
+            flavour, kind = case["flavour"], "regression_input"
+        if kind != "regression_input":
+            style = run.rng.choice(STYLES)
+            text = lg.render_program(case["prog"], run.rng, style)
         try:
             obs, err = import_text(flavour, case["root"], text)
         except BadObservation as ex:
@@ -224,6 +278,8 @@ def program_correspondence(run, n_good, n_bad):
             continue
         n_leaves = len(tree_leaves(obs)) if obs else 0
         run.add_case(["prog", flavour, case["prog"], case["root"]], kind == "wellformed" and n_leaves >= 2)
+        if obs is not None and kind == "wellformed":
+            count_repaired_regions(run, case, obs)
         run.count(f"{flavour}_{kind}_" + ("imported" if obs is not None else "raised"))
         if obs is not None:
             run.count("leaves_%d" % min(n_leaves, 20) if n_leaves < 20 else "leaves_20plus")
@@ -233,7 +289,7 @@ def program_correspondence(run, n_good, n_bad):
             run.count("stmt_" + s[0] + ("_wild" if s[0] == "prop" and s[1][0] == "wild" else ""))
         cases.append({"case": case, "kind": kind, "text": text, "observed": obs, "error": err})
         terms.append(coq_case(case, obs))
-    failing = common.run_shards(PID, "prog", PRE_LANG, terms, "c13_check", shard=60)
+    failing = common.run_shards(PID, "prog", pre_lang(), terms, "c13_check_v fx_now", shard=60)
     run.cov["traces_validated_against_impl"] += len(cases)
     if cases:
         c = cases[0]
@@ -241,11 +297,87 @@ def program_correspondence(run, n_good, n_bad):
     return cases, failing
 
 
+def count_repaired_regions(run, case, obs):
+    """input-distribution counts: how often an imported well-formed program sits in the region of one of the six findings"""
+    if case["flavour"] != "bmad":
+        return
+    defs = {}
+    for st in case["prog"]:
+        if st[0] == "def":
+            defs[st[1]] = st
+    for l in tree_leaves(obs):
+        d = defs.get(l["name"])
+        if d is None or d[2] not in ("sbend", "hkicker", "vkicker"):
+            continue                               # (inherited / later-assigned properties are not traced here: counts are lower bounds)
+        given = {p for p, _ in d[3]}
+        if d[2] == "sbend" and l["cls"] == "Dipole":
+            if "g" in given and "angle" not in given:
+                run.count("region_F18a_sbend_g_without_angle")
+            if "e1" not in given:
+                run.count("region_F43_sbend_without_e1")
+        if d[2] in ("hkicker", "vkicker") and ({"l", "kick"} & given):
+            run.count("region_F18b_kicker_with_l_or_kick")
+
+    def segs(t):
+        if "seg" in t:
+            yield t
+            for c in t["ch"]:
+                yield from segs(c)
+    for sg in segs(obs):
+        names = [c.get("name", "") for c in sg["ch"] if "cls" in c]
+        if len(sg["ch"]) == 2 and len(names) == 2 and names[0].endswith("_drift") and names[1].endswith("_aperture") and \
+                defs.get(names[0][:-6], [0, 0, ""])[2] == "ecollimator":
+            run.count("region_F42_ecollimator_segment_" + ("named" if sg["seg"] is not None else "unnamed"))
+
+
+HEAD_NAMES = ["q", "q1", "qf.1", "b_2", "d", "zz_9", "Q", "", "a b", "1a", "x.", "q-1"]
+HEAD_TYPES = ["quad", "drift", "sbend", "marker", "x9_", "ecollimator", "", "Qu", "a.b", "q1"]
+HEAD_TAILS = ["", "", ", l = 1", ",l=1, k1 = 2", ", l = 0.5 , k1 = 2", ",", ", ", " l = 1", ";", ",,", ", type = \"a, b\"", " ,l=2", "  , l = 3"]
+
+
+def define_correspondence(run, n):
+    """define_element itself against Parse/Lines.v define_header (the match of the head of a definition: name, type, and whether
+    the line is matched at all; white space in front of the first comma is the region of F40)."""
+    from cheetah.converters.utils import fortran_namelist as fn
+    terms, meta = [], []
+    ws = ["", "", " ", "\t", "  "]
+    for i in range(n):
+        r = run.rng
+        colon = r.choice([":", ":", ":", ":", ":", "", "=", "::"])
+        sp = r.choice(["", "", "", " ", "\t ", "  "])
+        line = r.choice(HEAD_NAMES) + r.choice(ws) + colon + r.choice(ws) + r.choice(HEAD_TYPES) + sp + r.choice(HEAD_TAILS)
+        try:
+            ctx = fn.define_element(line, {})
+            ctx.pop("__builtins__", None)                            # put there by eval() of a property value
+            if len(ctx) != 1:
+                raise BadObservation("define_element defined %d names" % len(ctx))
+            (name, props), = ctx.items()
+            obs = (name, props.get("element_type"))
+            if not isinstance(obs[1], str):
+                raise BadObservation("element_type " + repr(obs[1]))
+        except AttributeError:
+            obs = None
+        except BadObservation as ex:
+            obs = ("__bad_observation__", str(ex))
+        except Exception:
+            run.count("define_other_exception_discarded")           # the property list is not about the head of the definition
+            continue
+        run.add_case(["define", line], obs is not None)
+        run.count("define_" + ("matched" if obs is not None else "AttributeError") + ("_space_before_comma" if re.search(r"[a-z0-9_][ \t]+,", line) else ""))
+        o = "None" if obs is None else "(Some (%s, %s))" % (coq_string(obs[0]), coq_string(obs[1]))
+        terms.append("((%s, %s) : string * option (string * string))" % (coq_string(line), o))
+        meta.append({"line": line, "observed": list(obs) if obs else None})
+    bad = [{"kind": "define_header", "line": meta[i]["line"], "observed": meta[i]["observed"], "f40_repaired_model": STATE["fx"]["F40"]}
+           for i in common.run_shards(PID, "define", pre_lang(), terms, "define_check_v f40_now")]
+    run.cov["traces_validated_against_impl"] += len(terms)
+    return bad
+
+
 def model_says(case):
     """Text of the model's denotation (for replay files)."""
     fl = "Elegant" if case["flavour"] == "elegant" else "Bmad"
     p = BDIR / "model_says.v"
-    p.write_text(PRE_LANG + "\nEval vm_compute in (denote %s %s %s).\n" % (fl, coq_string(case["root"]), lg.coq_program(case["prog"])))
+    p.write_text(pre_lang() + "\nEval vm_compute in (denote_v fx_now %s %s %s).\n" % (fl, coq_string(case["root"]), lg.coq_program(case["prog"])))
     rc, out, err = common.coqc(p, timeout=300)
     return re.sub(r"\s+", " ", out)[:6000] if rc == 0 else "coqc failed: " + err[-400:]
 
@@ -259,7 +391,7 @@ def single_check(case):
     except BadObservation:
         return False, text, None
     try:
-        failing = common.run_vm_cases(PID, "shrink", PRE_LANG, [coq_case(case, obs)], "c13_check", timeout=300)
+        failing = common.run_vm_cases(PID, "shrink", pre_lang(), [coq_case(case, obs)], "c13_check_v fx_now", timeout=300)
     except RuntimeError:
         return True, text, obs
     return not failing, text, obs
@@ -469,6 +601,69 @@ def finding_holds(entry):
     return False
 
 
+def repaired_ok(entry):
+    """The stored input of a finding imports with the intended meaning (what the repaired code must do)."""
+    r = entry["replay"]
+    obs, err = import_text(r["flavour"], r.get("root", ""), r["text"], tag="known")
+    if obs is None:
+        return False
+    if r["kind"] == "import_value":
+        for l in tree_leaves(obs):
+            if l["name"] == r["element"]:
+                v = dict(l["params"]).get(r["param"])
+                return v is not None and abs(v - r["intended"]) <= 1e-6 * max(1.0, abs(r["intended"]))
+        return False
+    if r["kind"] == "segment_name":
+        return all(c["seg"] is not None for c in obs.get("ch", []) if "seg" in c)
+    return True
+
+
+def probe_fixes(run, report=True):
+    """Status of each of the six findings x behaviour of the current tree on its stored input -> which transcription is the faithful
+    model (and what the generators may exercise).  Returns (state, regressions, regression_cases)."""
+    state = {k: False for k in FIX_KEYS}
+    regressions, cases, how = [], [], {}
+    for f in common.load_known_findings(PID):
+        k = finding_key(f)
+        st = f.get("status")
+        if k not in FIX_KEYS or not f.get("replay") or st not in ("known", "fixed"):
+            continue
+        try:
+            holds = finding_holds(f)
+        except Exception:
+            holds = False
+        try:
+            ok = (not holds) and repaired_ok(f)
+        except Exception:
+            ok = False
+        if st == "known":
+            state[k] = ok
+            how[k] = "known, defect reproduces: code as it was" if holds else (
+                "known but the stored input imports as intended: STALE STATUS, repaired transcription used" if ok else
+                "known, stored input neither fails as recorded nor imports as intended: code as it was")
+            if ok and report:
+                run.notes.append(f"{k}: {f['id']} ({f.get('signature', {}).get('class', '')}) is listed known but its stored input now imports with the "
+                                 f"intended meaning: the status is stale (flip it to fixed); the repaired transcription is the model for this run")
+        else:
+            state[k] = not holds
+            how[k] = "fixed, stored input imports as intended: repaired transcription" if ok else (
+                "fixed but the defect REPRODUCES: regression" if holds else "fixed but the stored input does not import as intended: regression")
+            run.cov.setdefault("fixed_findings_replayed", []).append(k)
+            if not ok:
+                r = f["replay"]
+                obs, err = import_text(r["flavour"], r.get("root", ""), r["text"], tag="known")
+                regressions.append({"kind": "regression", "finding": f["id"], "key": k, "flavour": r["flavour"], "root": r.get("root", ""), "text": r["text"],
+                                    "stored_replay": r, "observed": obs, "import_error": err,
+                                    "what": f"finding {f['id']} is listed as fixed but fails again on its stored input: {f['what']}",
+                                    "relation": "the stored input of a repaired finding imports with the meaning the file gives it"})
+        if state[k] and REGRESSION[k]["text"] == f["replay"].get("text"):
+            c = REGRESSION[k]
+            cases.append(({"flavour": c["flavour"], "root": c["root"], "prog": c["prog"]}, c["text"]))
+    if report:
+        run.cov["importer_model"] = {k: ("repaired" if state[k] else "as it was") + " (" + how.get(k, "finding not listed: code as it was") + ")" for k in FIX_KEYS}
+    return state, regressions, cases
+
+
 def replay_known(run):
     for f in common.load_known_findings(PID):
         if f.get("status") != "known":
@@ -480,7 +675,9 @@ def replay_known(run):
         if still:
             run.known(f["what"])
         else:
-            run.cov["known_findings_not_reproduced"].append(f["id"])
+            k = finding_key(f)
+            run.cov["known_findings_not_reproduced"].append(
+                f"{k}: the stored input no longer fails" + (" (the status is stale: flip it to fixed)" if STATE["fx"].get(k) else ""))
 
 
 # ------------------------------------------------------------------------------------------------ main
@@ -497,17 +694,23 @@ def main(tier, replay=None):
                        "merge_delimiter_continued_lines; random NX tables vs the float32-exact layout model.  Non-trivial = well-formed with >= 2 "
                        "leaves (programs), >= 2 lines (line lists), >= 3 output elements (NX); distinct by full content.")
     if replay:
+        STATE["fx"], _, _ = probe_fixes(run, report=False)
+        lg.set_repaired(STATE["fx"])
         return do_replay(run, replay)
     proof_ok = run.proof_stage()
     if not proof_ok:
         run.notes.append(run.proof_problem)
+    STATE["fx"], regressions, regression_cases = probe_fixes(run)
+    lg.set_repaired(STATE["fx"])
 
     broken, found = [], []          # (what, detail) model/impl disagreements ; failing inputs found by the oracles
     if check_constants(run):
         broken.append({"kind": "constants", "broken": "named constants of parse_lines differ from Parse/LatticeLang.v ctx0"})
     for b in lines_correspondence(run, 1000 if thorough else 300):
         found.append(dict(b, relation="read_clean_lines / merge_delimiter_continued_lines = Parse/Lines.v (clean / merge_continued)"))
-    cases, failing = program_correspondence(run, 3000 if thorough else 400, 500 if thorough else 60)
+    for b in define_correspondence(run, 1500 if thorough else 250):
+        found.append(dict(b, relation="define_element matches the head of a definition as Parse/Lines.v define_header does (name, type, match or AttributeError)"))
+    cases, failing = program_correspondence(run, 3000 if thorough else 400, 500 if thorough else 60, extra=regression_cases)
     for i in failing[:3]:
         c = cases[i]
         small, text, obs = shrink_program(c["case"]) if not c.get("bad_observation") else (c["case"], None, None)
@@ -525,15 +728,21 @@ def main(tier, replay=None):
             break
     found += metamorphic(run, cases, 300 if thorough else 60)
     replay_known(run)
+    for k, v in sorted(lg.STYLE_COUNTS.items()):
+        run.count(k, v)
     run.cov["tested_only"] = ["text -> statement front end (regular expressions + eval) of fortran_namelist.py: program-level correspondence over the generator",
                               "line cleaning / continuation merging code vs Parse/Lines.v: exact differential runs on random line lists",
                               "NX-table import vs Parse/NxTables.v float instance: exact differential runs; centres within 2e-5 m (float32 positions)",
                               "style / independent-reordering invariance, expansion order and total length on the implementation alone",
                               "CODATA constants and numpy degrees() are compared by value on each run"]
 
+    for r in regressions:            # a repaired defect that is back: always reported, with its stored input
+        run.violation(r)
     if found:
         for f in found[:3]:
             run.violation(f)
+    elif regressions:
+        pass
     elif broken:
         run.violation(broken[0], no_input=True)
     elif not proof_ok:
@@ -547,9 +756,26 @@ def do_replay(run, path):
     if k == "program":
         case = {"flavour": r["flavour"], "root": r["root"], "prog": r["program"]}
         obs, err = import_text(r["flavour"], r["root"], r["text"], tag="replay")
-        failing = common.run_vm_cases(PID, "replay", PRE_LANG, [coq_case(case, obs)], "c13_check", timeout=600)
+        failing = common.run_vm_cases(PID, "replay", pre_lang(), [coq_case(case, obs)], "c13_check_v fx_now", timeout=600)
         print("replay:", "property FAILS on this input" if failing else "property holds on this input")
         print(json.dumps({"observed": obs, "error": err})[:3000])
+        return 1 if failing else 0
+    if k == "regression":
+        e = {"replay": r["stored_replay"]}
+        bad = finding_holds(e) or not repaired_ok(e)
+        print("replay:", "property FAILS on this input" if bad else "property holds on this input")
+        return 1 if bad else 0
+    if k == "define_header":
+        from cheetah.converters.utils import fortran_namelist as fn
+        try:
+            ctx = fn.define_element(r["line"], {})
+            ctx.pop("__builtins__", None)
+            (name, props), = ctx.items()
+            o = "(Some (%s, %s))" % (coq_string(name), coq_string(str(props.get("element_type"))))
+        except AttributeError:
+            o = "None"
+        failing = common.run_vm_cases(PID, "replay", pre_lang(), ["((%s, %s) : string * option (string * string))" % (coq_string(r["line"]), o)], "define_check_v f40_now", timeout=600)
+        print("replay:", "property FAILS on this input" if failing else "property holds on this input")
         return 1 if failing else 0
     if k in ("style_invariance", "reorder_invariance"):
         a, _ = import_text(r["flavour"], r["root"], r["text_a"], tag="replay")
@@ -588,9 +814,9 @@ def do_replay(run, path):
         m = m if m is None else merge(m, "{", False)
         bad = []
         bad += common.run_vm_cases(PID, "replay_a", PRE_LANG, ["((%s, %s) : list string * list string)" % (sl(c["raw"]), sl(cleaned))], "clean_check", timeout=600)
-        bad += common.run_vm_cases(PID, "replay_b", PRE_LANG, ["((%s, %s, %s, %s) : list string * string * bool * option (list string))" % (
-            sl(c["merge_in"]), coq_string(c["delimiter"]), "true" if c["remove"] else "false", so(obs))], "merge_check", timeout=600)
-        bad += common.run_vm_cases(PID, "replay_c", PRE_LANG, ["((%s, %s) : list string * option (list string))" % (sl(c["raw"]), so(m))], "front_check", timeout=600)
+        bad += common.run_vm_cases(PID, "replay_b", pre_lang(), ["((%s, %s, %s, %s) : list string * string * bool * option (list string))" % (
+            sl(c["merge_in"]), coq_string(c["delimiter"]), "true" if c["remove"] else "false", so(obs))], "merge_check_v f41_now", timeout=600)
+        bad += common.run_vm_cases(PID, "replay_c", pre_lang(), ["((%s, %s) : list string * option (list string))" % (sl(c["raw"]), so(m))], "front_check_v f41_now", timeout=600)
         print("replay:", "property FAILS on this input" if bad else "property holds on this input")
         print(json.dumps({"cleaned": cleaned, "merged": obs, "front_end": m}))
         return 1 if bad else 0
